@@ -21,7 +21,7 @@ from symx.core import Sym, explore, integer, lift, real, _real, _coerce
 from symx.npshim import BlindNP
 from symx.shapes import ShapeOnly
 
-from .common import TRUSTED, fl, frac, quick, select
+from .common import TRUSTED, fl, frac, quick, select, ratz
 
 PID = "C05"
 MODS = ["acryo.backend._api", "acryo.backend._upsample", "acryo.backend._zncc", "acryo.backend._pcc", "acryo.backend._fsc"]
@@ -212,8 +212,9 @@ def sec_model(rec, kind="zncc", box=(6, 6, 6), axis=0, others=(0.0, 1.3), patche
         n_ok += 1
         shifts, score = p.result
         for a in range(3):
-            s = zr(shifts[a])
-            ma = zr(ms[a])
+            # exact-real claim: float32/float64 constants (k/20 mesh offsets, literal max_shifts such as 0.7) are read as the fractions they stand for
+            s = ratz(zr(shifts[a]))
+            ma = ratz(zr(ms[a]))
             rec.query(f"{tag}/path{pi}/|shift{a}|<=m", h, z3.And(s <= ma, s >= -ma), key=f"C05/shift-exceeds-range[{kind}]", names=names, replay=rp)
     rec.extra[tag] = {"paths": len(paths), "completed": n_ok}
 
